@@ -574,11 +574,22 @@ TRUSTED = [
     "axioms: none (every theorem of C18/Props.v is 'Closed under the global context')",
     "correspondence harness harness/props/c18.py (generators, observers, in-Coq comparison ok_* of C18/Model.v)",
     "model choices: node/element/value ids are Z; dicts are total functions with default 0; to_dict/from_dict exercised by snapshots",
+    "translator harness/translate/py2coq.py (fail-closed Python-ast -> Gallina, subset in its docstring) + the declared field/parameter types in py2coq_targets.py: "
+    "Gen/ClocksGen.v is regenerated from logical_clocks.py, g_counter.py, lww_register.py on every run; __init__ methods, happened_before/merge of VectorClock, "
+    "PNCounter and ORSet are not translated (model + correspondence only); `other` never aliases `self`; Python ints are Z",
 ]
 
 
 def run(ctx):
-    ctx.prove(["C18/Model.v", "C18/Causal.v", "C18/CRDT.v", "C18/VectorIff.v", "C18/Props.v"], allowed_axioms=(), trusted_base=TRUSTED)
+    # regenerate the translation of the clock / CRDT kernels from $HS_REPO; the tie lemmas
+    # (C18/GenTie.v, C18/CodeSim.v) and the c18_code_* theorems are re-checked against it
+    from props import pygen
+    ok, info = pygen.regenerate("ClocksGen")
+    ctx.coverage["regenerated"] = info
+    ctx.prove(["C18/Model.v", "C18/Causal.v", "C18/CRDT.v", "C18/VectorIff.v", "Base/PyLib.v", "Gen/ClocksGen.v",
+               "C18/GenTie.v", "C18/CodeSim.v", "C18/Props.v"], allowed_axioms=(), trusted_base=TRUSTED)
+    if not ok and ctx.pending_obligation_violation:
+        ctx.pending_obligation_violation["translator"] = info.get("error")
     n = ctx.n(250, 6000)
     stats = [run_family(ctx, fam, n) for fam in FAMILIES]
     merge_stats(ctx, stats, "random structured histories/op schedules over 2-5 replicas; non-trivial = contains a receive/merge/remove; distinct by JSON of the input")
